@@ -215,8 +215,10 @@ def class_source(spec) -> str:
         n = nodes[i]
         defect = n.get('defect')
         generic = bool(n.get('generic'))
+        # a generic *input* node: built with build_node(…, dependencies_default={…}); it takes an optional input key
+        gen_in = bool(n.get('generic_input')) and not defect and not n['marks']
         base = 'RecurrentProcessor' if n.get('is_rec') else 'ProcessorBase'
-        cname = n['name'] + ('Base' if generic else '') + ('_cls' if defect == 'not_class' else '')
+        cname = n['name'] + ('Base' if generic or gen_in else '') + ('_cls' if defect == 'not_class' else '')
         if defect == 'no_base':
             L.append(f'class {cname}:')
             L.append('    node_type = None')
@@ -268,6 +270,9 @@ def class_source(spec) -> str:
         names = [p for p in n.get('plain', [])] + [p for p, _ in n['marks']]
         kw = 'dict(' + ', '.join(f'{p}={p}' for p in names) + ')'
         extra = ''
+        if gen_in:
+            params += ['opt: t.Optional[str] = None', "dd: str = ''"]
+            extra += '\n        if opt is not None: kw["opt"] = opt'
         if n.get('has_additional'):
             extra = f'\n        if additional_data is not None: kw["additional_data"] = additional_data'
         sig = ', '.join(['self'] + params)
@@ -288,6 +293,10 @@ def class_source(spec) -> str:
             deps = ', '.join(f'{p}={mark_source(nodes, m)}' for p, m in n['marks'] if m['kind'] != 'generic')
             L.append(f'{n["name"]} = build_node({cname}, node_name={n["name"]!r}, class_name={n["name"]!r}'
                      + (', ' + deps if deps else '') + ')')
+            L.append('')
+        if gen_in:
+            L.append(f'{n["name"]} = build_node({cname}, node_name={n["name"]!r}, class_name={n["name"]!r}, '
+                     "dependencies_default={'dd': 'D'})")
             L.append('')
         if defect == 'not_class':
             L.append(f'{n["name"]} = {cname}()')
@@ -574,6 +583,8 @@ def _gen_spec(rng, profile, n_min, n_max, fail_p, modes, retry_p, falsy_p, cb_p,
             nd['fail_hash'] = [2, rng.randrange(2), rng.choice(['E0', 'E1', 'E2'])]
         if nd['body']['kind'] == 'prov' and rng.random() < falsy_p:
             nd['body'] = {'kind': 'const', 'v': rng.choice([None, 0, ''])}
+    if not nodes[0].get('has_additional') and rng.random() < 0.15:
+        nodes[0]['generic_input'] = True      # (a build_node-derived class cannot be a recurrent start node)
     spec = {'nodes': nodes, 'input': 0, 'output': n - 1, 'input_kwargs': {'x': rng.choice(['v', 'w', ''])}}
     spec = prune(spec)
     if cb_p and rng.random() < cb_p:
